@@ -78,6 +78,10 @@ class Arm:
             nsp, evp = p["sub"][0]["pat"], p["sub"][1]["pat"]
             self._ns(nsp)
             self._ev(evp)
+        elif (p.get("k") == "Variant" and str(p.get("adt", "")).endswith("events::Event")) or p.get("k") in ("Bind", "Wild", "Or"):
+            # a match on the bare event (read_event): no namespace component
+            self.ns_pat = "any"
+            self._ev(p)
         else:
             self.ns_pat = "other"
             self.kinds = {"?"}
@@ -281,6 +285,9 @@ def _event_lets(t):
 def is_event_match(t, n):
     sc = X.ntext(n["scrut"])
     if sc.startswith("NsReader::read_resolved_event(") and sc.endswith("?"):
+        return True
+    # the unresolved form (`match reader.read_event()? { Event::End(..) => .., event => .. }`) reads one event just the same
+    if sc.startswith(("NsReader::read_event(", "Reader::read_event(")) and sc.endswith("?"):
         return True
     e = T.peel(n["scrut"])
     if e.get("k") == "Tuple":
